@@ -2,16 +2,40 @@
    model (Model/Mem.v, [model_agrees]) and versus the reference registry
    (Model/MemSpec.v, [obs_ok]). *)
 From Coq Require Import String.
-From OCI Require Export Obs.MemObs Model.MemSpec Model.MemRel.
+From OCI Require Export Obs.MemObs Model.MemSpec Model.MemRel Model.NameSpec.
 From OCI Require Import Proofs.MemInv Proofs.MemRefine Proofs.MemHistory.
 
-Record case := { c_imm : bool; c_orc : oracles; c_ops : list op; c_obs : list oresult }.
+(* Which names are valid is NOT taken from the harness: the implementation model and the
+   reference registry are both run with the grammars of the specifications evaluated here, in
+   Coq (Model/NameSpec.v: [spec_valid_repo], [spec_valid_tag], [spec_valid_digest]).  A
+   validator of the library that refuses a legal name, or takes an illegal one, therefore
+   shows as a difference between what the registry did and what both models predict.  The
+   tables [o_repos], [o_tags], [o_digests] of [c_orc] (package memsim computes them from its
+   own, Go, statement of the same grammars - the other properties that run histories use
+   them) are only compared with the grammars, for every string the history mentions
+   ([c_cand]: every string the harness asked the question for): [tables_ok].  Hash and JSON
+   decoding remain tables computed by the real code. *)
+Record cands := { k_repos : list bytes; k_tags : list bytes; k_digests : list bytes }.
+
+Record case := { c_imm : bool; c_orc : oracles; c_cand : cands; c_ops : list op; c_obs : list oresult }.
+
+Definition mem_step_spec (o : oracles) (imm : bool) : registry state :=
+  step (orc_hash o) spec_valid_digest spec_valid_repo spec_valid_tag (orc_img o) (orc_idx o) {| immutable_tags := imm |}.
 
 Definition spec_step (o : oracles) (imm : bool) : sstate -> op -> sstate * result :=
-  sstep (orc_hash o) (orc_vd o) (orc_vr o) (orc_vt o) (orc_img o) (orc_idx o) {| immutable_tags := imm |}.
+  sstep (orc_hash o) spec_valid_digest spec_valid_repo spec_valid_tag (orc_img o) (orc_idx o) {| immutable_tags := imm |}.
 
-Definition model_results (c : case) : list result := snd (run (mem_step (c_orc c) (c_imm c)) init (c_ops c)).
-Definition model_agrees (c : case) : bool := agrees_all (c_obs c) (model_results c).
+(* a table lists exactly the candidates the grammar accepts *)
+Definition table_ok (valid : bytes -> bool) (cand tbl : list bytes) : bool :=
+  forallb (fun w => Bool.eqb (valid w) (mem_bytes w tbl)) cand && forallb (fun w => mem_bytes w cand) tbl.
+
+Definition tables_ok (c : case) : bool :=
+  table_ok spec_valid_repo (k_repos (c_cand c)) (o_repos (c_orc c))
+  && table_ok spec_valid_tag (k_tags (c_cand c)) (o_tags (c_orc c))
+  && table_ok spec_valid_digest (k_digests (c_cand c)) (o_digests (c_orc c)).
+
+Definition model_results (c : case) : list result := snd (run (mem_step_spec (c_orc c) (c_imm c)) init (c_ops c)).
+Definition model_agrees (c : case) : bool := tables_ok c && agrees_all (c_obs c) (model_results c).
 
 (* an observed result as a model-level result (error tag dropped) *)
 Definition to_result (o : oresult) : result :=
@@ -205,7 +229,7 @@ Qed.
 Section Sound.
   Variable orc : oracles.
   Variable imm : bool.
-  Local Notation mstep := (mem_step orc imm).
+  Local Notation mstep := (mem_step_spec orc imm).
   Local Notation sstep' := (spec_step orc imm).
   Local Notation Inv' := (Inv (orc_hash orc) (orc_img orc) (orc_idx orc)).
 
@@ -227,7 +251,7 @@ Section Sound.
       cbn [spec_ok]. destruct (sstep' sp o) as [sp' q] eqn:ES.
       destruct (result_eq_fuel_dec q) as [->|Dq]; [reflexivity|].
       pose proof (agrees_definite _ _ Ha1) as Dr.
-      destruct (sim_step (orc_hash orc) (orc_vd orc) (orc_vr orc) (orc_vt orc) (orc_img orc) (orc_idx orc)
+      destruct (sim_step (orc_hash orc) spec_valid_digest spec_valid_repo spec_valid_tag (orc_img orc) (orc_idx orc)
                 {| immutable_tags := imm |} st sp o HR HI) as [HR' Hres].
       { intros _. unfold spec_step in ES. rewrite ES. split; assumption. }
       unfold spec_step in ES. rewrite ES in HR', Hres. cbn [fst snd] in HR', Hres.
@@ -241,7 +265,7 @@ End Sound.
 
 Lemma corr_sound c : model_agrees c = true -> obs_ok c = true.
 Proof.
-  unfold model_agrees, obs_ok, model_results. intros H.
+  unfold model_agrees, obs_ok, model_results. intros H. apply andb_true_iff in H as [_ H].
   eapply spec_ok_sound; [apply rel_init | apply inv_init | exact H].
 Qed.
 
